@@ -38,6 +38,8 @@ theorem eqOf_beq (k : Kind) (x y : Nat) : eqOf k x y = (x == y) := by
 def unarySv : Op → Bool
   | .tryPush .. => false
   | .unchecked .. => false
+  | .tryPushA .. => false
+  | .uncheckedA .. => false
   | op => (isBinary op).isNone
 
 theorem step1_refines {cap : Nat} (kind : Kind) (op : Op) (d : V) (hc : cap < 2 ^ 64) (hcap : d.length ≤ cap)
@@ -143,11 +145,15 @@ theorem step1_refines {cap : Nat} (kind : Kind) (op : Op) (d : V) (hc : cap < 2 
   | cmp j => simp [unarySv, isBinary] at hu
   | tryPush ov x => simp [unarySv] at hu
   | unchecked ov x => simp [unarySv] at hu
+  | tryPushA ov i => simp [unarySv] at hu
+  | uncheckedA ov i => simp [unarySv] at hu
 
 /-- operations of `inplace_vector` on one object -/
 def unaryIpv : Op → Bool
   | .tryPush .. => true
   | .unchecked .. => true
+  | .tryPushA .. => true
+  | .uncheckedA .. => true
   | .pop => true
   | .clear => true
   | .dump => true
@@ -168,6 +174,19 @@ theorem step1Ipv_refines {cap : Nat} (op : Op) (d : V) (hc : cap < 2 ^ 64) (hcap
   | unchecked ov x =>
     simp only [valid1, decide_eq_true_eq] at hv
     exact ⟨by simp [step1Ipv, Spec.apply1, ipvUnchecked_eq d x hc hv], by simp [Spec.apply1]; omega⟩
+  | tryPushA ov i =>
+    simp only [valid1, decide_eq_true_eq] at hv
+    refine ⟨?_, ?_⟩
+    · simp only [step1Ipv, Spec.apply1, withElem_lt hv, ipvTryA_elem d i hc hcap hv, ok_bind]
+      split <;> rfl
+    · simp only [Spec.apply1, withElem_lt hv]
+      split
+      · exact hcap
+      · simp; omega
+  | uncheckedA ov i =>
+    simp only [valid1, Bool.and_eq_true, decide_eq_true_eq] at hv
+    exact ⟨by simp [step1Ipv, Spec.apply1, withElem_lt hv.2, ipvUncheckedA_elem d i hc hv.1 hv.2],
+      by simp [Spec.apply1, withElem_lt hv.2]; omega⟩
   | pop =>
     simp only [valid1, decide_eq_true_eq] at hv
     exact ⟨by simp [step1Ipv, Spec.apply1, ipvPop_eq d hc hcap hv], by simp [Spec.apply1]; omega⟩
